@@ -82,6 +82,14 @@ rec("error_pipeline_unreferenced", lambda: ProcessingPipeline.from_dict({"name":
     "c_zeta": {"type": "is_sigma_rule"}, "c_alpha": {"type": "is_sigma_rule"}, "c_beta": {"type": "is_sigma_rule"}, "used": {"type": "is_sigma_rule"}}, "rule_cond_expr": "used"}]}))
 rec("error_collect", lambda: conv(P_MAP, [rule({"sel": {"f1|expand": "%nope%"}}), rule({"sel": {"f1|cased": "A"}}), rule({"sel": {"f1": "a"}}, "sel and missing")], V.K(templates=frozenset(V.ALL_TEMPLATES) - {"cs"})))
 rec("error_load_collect", lambda: [[type(e).__name__ + ":" + str(e) for e in SigmaCollection.from_dicts([{"title": 5, "id": "x", "level": "nope", "status": [], "tags": ["bad tag"], "detection": {"sel": {"f|contains": None}, "condition": "sel"}}], collect_errors=True).errors]])
+P_STRICT = {"name": "s", "priority": 1, "transformations": [{"id": "m", "type": "field_name_mapping", "mapping": {"f1": "g1"}}, {"id": "strict", "type": "strict_field_mapping_failure"}]}
+rec("error_strict_mapping", lambda: conv(P_STRICT, [rule({"sel": {"f1": "a", "zeta": "b", "alpha": "c", "beta": "d"}})]))
+rec("error_modifier_type_regex", lambda: conv(None, [rule({"sel": {"f1|re|i|m|s|base64": "a.*"}})]))
+rec("error_modifier_type_regex_load", lambda: [[type(e).__name__ + ":" + str(e) for e in SigmaCollection.from_dicts([rule({"sel": {"f1|re|m|i|s|contains|wide": "a.*"}})], collect_errors=True).errors]])
+FILTER_UNDEF = [rule({"sel": {"f1": "a"}}, "sel"),
+                {"title": "fu", "logsource": {"category": "c"}, "filter": {"rules": "any", "flt": {"user": "x"}, "condition": "not nosuch"}}]
+rec("error_filter_undefined_name", lambda: conv(None, FILTER_UNDEF))
+rec("error_filter_undefined_name_load", lambda: [[type(e).__name__ + ":" + str(e) for e in SigmaCollection.from_dicts(FILTER_UNDEF, collect_errors=True).errors]])
 rec("to_dict_after_pipeline", lambda: (lambda r: (ProcessingPipeline.from_dict(P_MAP).apply(r), r.fields, sorted(r.detection.detections))[1:])(SigmaRule.from_dict(rule({"sel": {"f1": "a", "f2": "b"}}, fields=["f1", "f2"]))))
 
 
@@ -98,7 +106,7 @@ def validators():
 rec("validators", validators)
 
 # probe of set iteration orders realised by this hash seed (coverage measurement, not judged)
-probe_sets = {"refs3": ["ra", "rb", "rc"], "kw3": ["zeta", "alpha", "beta"], "ids3": ["c_zeta", "c_alpha", "c_beta"], "g3": ["g1", "g2", "g3"], "flags3": ["i", "m", "s"], "h2": ["h1", "h2"]}
+probe_sets = {"refs3": ["ra", "rb", "rc"], "kw3": ["zeta", "alpha", "beta"], "ids3": ["c_zeta", "c_alpha", "c_beta"], "g3": ["g1", "g2", "g3"], "flags3": ["i", "m", "s"], "h2": ["h1", "h2"], "unm3": ["zeta", "alpha", "beta"], "flagnames3": ["IGNORECASE", "MULTILINE", "DOTALL"]}
 orders = {k: list(set(v)) for k, v in probe_sets.items()}
 leak = sorted(set(re.findall(r"_(?:cond|filt)_[a-z]{10}", json.dumps(out, default=repr))))
 print(json.dumps({"out": out, "orders": orders, "leak": leak}, default=repr, sort_keys=True))
